@@ -769,7 +769,7 @@ fn wrap_corpus() -> Vec<Scn> {
     let mut out = vec![];
     // the outstanding TSNs straddle the wrap when a cumulative SACK for the part below it arrives; then silence:
     // nothing the SACK covered may be retransmitted by T3 / the probe
-    for back in [3u32, 2, 5] {
+    for back in [3u32, 4, 2] {
         let mut s = Scn::new("wrap-timed-partial-ack");
         s.timed = true; s.rto_ms = 240; s.init_tsn = Some(0u32.wrapping_sub(back));
         s.steps = vec![Step::Send(0, false, Pay::Fill(10, 0x70)), Step::Pkt(vec![InChunk::Sack(SackKind::All, 1 << 20)]),
